@@ -694,7 +694,11 @@ class StructureVisitor(ASTTemplate):
                 elif col not in comps and output_ds and col in output_ds.components:
                     comps[col] = output_ds.components[col]
                 elif col not in comps:
-                    comps[col] = self._make_comp(col, Number)
+                    # A component that does not reach the statement's output (dropped or
+                    # renamed further on) still has the role the calc gives it.
+                    comps[col] = self._make_comp(
+                        col, Number, role=calc_role, nullable=calc_role != Role.IDENTIFIER
+                    )
         return Dataset(name=input_ds.name, components=comps, data=None)
 
     def _build_ds_ds_binop_structure(self, node: AST.BinOp) -> Optional[Dataset]:
